@@ -376,6 +376,19 @@ func (w *h1World) runClient(ci int, script *h1Conn, s *sut.SUT, mitmCA *x509.Cer
 	for i := range gotResp {
 		gotResp[i] = make(chan struct{})
 	}
+	readerDone := make(chan struct{})
+	defer close(readerDone)
+	// gap waits, unless the reading side of this client has finished meanwhile (connection closed by the proxy)
+	gap := func(d time.Duration) bool {
+		tm := time.NewTimer(d)
+		defer tm.Stop()
+		select {
+		case <-tm.C:
+			return true
+		case <-readerDone:
+			return false
+		}
+	}
 	// writer: sends requests in order; a non-pipelined request waits for the previous response
 	go func() {
 		for i := range script.Ex {
@@ -384,6 +397,21 @@ func (w *h1World) runClient(ci int, script *h1Conn, s *sut.SUT, mitmCA *x509.Cer
 				<-gotResp[i-1]
 			}
 			raw := ex.Req.raw(w.scheme)
+			if ex.Req.GapS > 0 {
+				if !gap(time.Duration(ex.Req.GapS)*time.Second + time.Duration(ci)*time.Millisecond) {
+					return
+				}
+				if k := ex.Req.HeadCut; k > 0 && k < len(raw) {
+					if _, err := conn.Write(raw[:k]); err != nil {
+						return
+					}
+					if !gap(300 * time.Millisecond) {
+						return
+					}
+					raw = raw[k:]
+				}
+				env.Probe("request_after_idle_gap_in_two_segments")
+			}
 			if ex.Resp.Early {
 				hl := bytes.Index(raw, []byte("\r\n\r\n")) + 4
 				cut := hl + (len(raw)-hl)/2
@@ -548,6 +576,12 @@ func genH1Case(t *tape.Tape, tier, mode string) *h1Case {
 			}
 			if n := len(conn.Ex); n > 0 && conn.Ex[n-1].Resp.Early {
 				r.Pipeline = false // the previous exchange's client waits for its response in the middle of the upload
+			}
+			if !r.Pipeline && t.Chance(1, 10) {
+				// a keep-alive connection left idle (inside the idle limit, beyond every per-request limit), then a
+				// request whose head does not arrive in one piece
+				r.GapS = []int{75, 200, 1500}[t.Pick(3, 2, 1)]
+				r.HeadCut = 1 + t.Intn(40)
 			}
 			if r.BodyKind != "none" && r.BodyLen >= 2 && r.Proto == "HTTP/1.1" && !ex.Resp.SSE && len(ex.Resp.Pauses) == 0 && ex.Resp.BodyKind != "eof" && !ex.Resp.CloseAfter && t.Chance(1, 6) {
 				ex.Resp.Early = true
@@ -1254,6 +1288,9 @@ func shapeH1(ci any) string {
 			fmt.Fprintf(&sb, "%s%s%s%d-%d%s%d", ex.Req.Method[:2], ex.Req.Form[:1], ex.Req.BodyKind[:2], len(ex.Req.Fields), ex.Resp.Status, ex.Resp.BodyKind[:2], len(ex.Resp.Chunks))
 			if ex.Req.Pipeline {
 				sb.WriteString("p")
+			}
+			if ex.Req.GapS > 0 {
+				sb.WriteString("g")
 			}
 		}
 	}
